@@ -75,10 +75,10 @@ def _git(repo, *a, check=True, env_extra=None):
 def git_cross_validate(n_dags, seed):
     """builds generated commit DAGs with the real git and compares every query conductor.utils.git
     issues (through the real wrapper class) between the fake and the real binary"""
-    import conductor.utils.git as cgit
     from . import profiles
 
     sim.install()
+    import conductor.utils.git as cgit
     r = random.Random(seed)
     queries = 0
     mism = []
@@ -122,67 +122,54 @@ def git_cross_validate(n_dags, seed):
                         _git(repo, "update-ref", "--no-deref", "HEAD", real_hash[g["head"]])
                 # every commit has the same tree, so the work tree is dirty exactly when f was edited
                 (repo / "f").write_text("dirty" if g.get("dirty") else "x")
+                _git(repo, "reset", "-q")                      # nothing staged ...
+                if g.get("dirty") == "staged":
+                    _git(repo, "add", "f")                    # ... unless the scenario says so
                 _git(repo, "update-index", "-q", "--refresh")
-                # compare after every step
-                fake = cgit.Git(work)      # goes to the fake through the patched module
+                # compare after every step: let the real wrapper class issue its queries against the fake
+                # binary, then put every argv it used to the real binary as well (hashes translated)
                 names = sorted(g.get("commits", {}))
                 f2r = {sim.commit_hash(n): real_hash[n] for n in names}
-
-                def real_run(argv, **kw):
-                    return _git(repo, *argv[1:])
-
+                r2f = {v: k for k, v in f2r.items()}
+                world.git.log = []
                 global_cur = sim.CUR
                 try:
                     sim.CUR = world
                     world.in_cb = 1          # no scheduling inside this comparison
-                    fk_used = fake.is_used()
-                    fk_cur = fake.current_commit()
+                    fake = cgit.Git(work)
+                    fake.is_used()
+                    fake.current_commit()
+                    for x in names:
+                        for y in names:
+                            if fake.is_ancestor(sim.commit_hash(x), sim.commit_hash(y)):
+                                fake.get_distance(sim.commit_hash(x), sim.commit_hash(y))
+                    for sym in list(g.get("branches", {})) + ["HEAD", "nosuch", "deadbeef"]:
+                        fake.rev_parse(sym)
+                    if g.get("head"):
+                        for argv in (["git", "diff", "--quiet"], ["git", "diff", "--cached", "--quiet"],
+                                     ["git", "diff", "--quiet", "HEAD"], ["git", "diff-index", "--quiet", "--cached", "HEAD"],
+                                     ["git", "rev-list", "--count", "--first-parent", "HEAD"]):
+                            world.git.run(argv, capture_output=True, text=True)
                 finally:
                     sim.CUR = global_cur
-                rl_used = _git(repo, "rev-parse", "--git-dir").returncode == 0
-                rl_head = _git(repo, "rev-parse", "HEAD")
-                queries += 2
-                if fk_used != rl_used:
-                    mism.append("is_used %r vs %r" % (fk_used, rl_used))
-                if (fk_cur is None) != (rl_head.returncode != 0):
-                    mism.append("current_commit None-ness differs after %r" % (op,))
-                elif fk_cur is not None:
-                    if f2r.get(fk_cur.hash) != rl_head.stdout.strip():
-                        mism.append("HEAD differs after %r" % (op,))
-                    rl_dirty = _git(repo, "diff-index", "--quiet", "HEAD").returncode != 0
+                log, world.git.log = world.git.log, None
+
+                def tr(tok, table):
+                    out = tok
+                    for a_, b_ in table.items():
+                        out = out.replace(a_, b_)
+                    return out
+
+                for argv, frc, fout in log:
+                    rargv = [tr(t_, f2r) for t_ in argv[1:]]
+                    rr = _git(repo, *rargv)
                     queries += 1
-                    if fk_cur.has_changes != rl_dirty:
-                        mism.append("dirty flag differs after %r: fake %r real %r" % (op, fk_cur.has_changes, rl_dirty))
-                for x in names:
-                    for y in names:
-                        try:
-                            sim.CUR = world
-                            world.in_cb = 1
-                            fa = fake.is_ancestor(sim.commit_hash(x), sim.commit_hash(y))
-                            fd = fake.get_distance(sim.commit_hash(x), sim.commit_hash(y)) if fa else None
-                        finally:
-                            sim.CUR = global_cur
-                        ra = _git(repo, "merge-base", "--is-ancestor", real_hash[y], real_hash[x]).returncode == 0
-                        queries += 1
-                        if fa != ra:
-                            mism.append("is_ancestor(%s,%s) fake %r real %r" % (x, y, fa, ra))
-                        elif fa:
-                            rd = int(_git(repo, "rev-list", "--count", real_hash[x], "^" + real_hash[y]).stdout.strip())
-                            queries += 1
-                            if fd != rd:
-                                mism.append("distance(%s,%s) fake %r real %r" % (x, y, fd, rd))
-                for sym in list(g.get("branches", {})) + ["HEAD", "nosuch", "deadbeef"]:
-                    try:
-                        sim.CUR = world
-                        world.in_cb = 1
-                        fr = fake.rev_parse(sym)
-                    finally:
-                        sim.CUR = global_cur
-                    rr = _git(repo, "rev-parse", sym)
-                    queries += 1
-                    rv = rr.stdout.strip() if rr.returncode == 0 else None
-                    if (fr is None) != (rv is None) or (fr is not None and f2r.get(fr) != rv):
-                        mism.append("rev_parse(%s) fake %r real %r" % (sym, fr, rv))
+                    rout = tr(rr.stdout, r2f)
+                    if frc != rr.returncode or (frc == 0 and fout.strip() != rout.strip() and argv[1] != "rev-parse" or
+                                                (frc == 0 and argv[1] == "rev-parse" and argv[2] != "--git-dir"
+                                                 and fout.strip() != rout.strip())):
+                        mism.append("%r after %r: fake (%r, %r) real (%r, %r)" % (argv[1:], op, frc, fout.strip()[:40],
+                                                                                 rr.returncode, rout.strip()[:40]))
         finally:
             shutil.rmtree(work, ignore_errors=True)
     return queries, mism[:10]
@@ -255,6 +242,8 @@ def real_vs_sim_outcomes(n, seed):
     P = props.PROPS["C03"]
     for k in range(n):
         scn = P.gen(r)
+        if any(d.get("xg") for d in scn["tasks"].values()):
+            continue        # instances of a run_experiment_group share one run string: not expressible here
         scn["history"] = scn["history"][:1]
         op = scn["history"][0]
         op["flags"].pop("stop_early", None)
